@@ -222,6 +222,12 @@ def standard_parsing_functions(Block: Any, Tx: Any) -> list[Any]:
             raise struct.error("argument out of range for a 6-byte integer")
         f.write(b[:6])
 
+    def parse_optional_bool(f: IO[bytes]) -> bool | None:
+        b = f.read(1)
+        if not b:
+            return None
+        return struct.unpack("?", b)[0]  # type: ignore[no-any-return]
+
     more_parsing = [
         ("A", (PeerAddress.parse, lambda f, peer_addr: peer_addr.stream(f))),
         ("v", (InvItem.parse, lambda f, inv_item: inv_item.stream(f))),
@@ -239,7 +245,7 @@ def standard_parsing_functions(Block: Any, Tx: Any) -> list[Any]:
         (
             "O",
             (
-                lambda f: True if f.read(1) else False,
+                parse_optional_bool,
                 lambda f, v: f.write(b"" if v is None else struct.pack("B", v)),
             ),
         ),
